@@ -159,7 +159,12 @@ def compile_static(spec, flavour, skip, seam, module="ufoLib2"):
     import ufo2ft
     sp = dict(spec)
     opts = {}
-    if skip:
+    if seam == "arg-empty-vs-lib":
+        # an explicit (empty) argument overrides whatever the UFO lib lists: nothing may be skipped
+        opts["skipExportGlyphs"] = []
+        if skip:
+            sp = dict(spec, lib=dict(spec["lib"], **{"public.skipExportGlyphs": list(skip)}))
+    elif skip:
         if seam == "arg":
             opts["skipExportGlyphs"] = list(skip)
         else:
@@ -182,6 +187,11 @@ def compile_var(spec, flavour, skip, seam):
             opts["skipExportGlyphs"] = list(skip)
         elif seam == "dslib":
             dslib["public.skipExportGlyphs"] = list(skip)
+        elif seam == "ufolibs-ignored-by-ds":
+            # designspace functions read the designspace lib only (documented): keys in the UFO libs
+            # must not skip anything
+            specs[0] = dict(spec, lib=dict(spec["lib"], **{"public.skipExportGlyphs": list(skip)}))
+            specs[1] = dict(sp2, lib=dict(spec["lib"], **{"public.skipExportGlyphs": list(skip)}))
         else:  # split over the two UFO libs: the union counts
             sk = sorted(skip)
             specs[0] = dict(spec, lib=dict(spec["lib"], **{"public.skipExportGlyphs": sk[:1]}))
@@ -309,6 +319,9 @@ class C13(Property):
             k += 1
             if k % b["lib_every"] == 0:
                 out.append([{"graph": graph, "flavour": "ttf", "seam": "lib", "module": "defcon"}])
+            if k % (4 * b["lib_every"]) == 1:
+                out.append([{"graph": graph, "flavour": "ttf", "seam": "arg-empty-vs-lib"}])
+                out.append([{"graph": graph, "flavour": "var-ttf", "seam": "ufolibs-ignored-by-ds"}])
             if k % b["var_every"] == 0:
                 # designspace functions take the list from the designspace lib only (documented);
                 # the UFO-list function takes the argument or the union of the UFO libs
@@ -349,6 +362,8 @@ class C13(Property):
                 def bad(kind, **d):
                     viols.append(violation(kind, dict(feat0), skip=skip, graph=c["graph"], **d))
 
+                if c["seam"] in ("arg-empty-vs-lib", "ufolibs-ignored-by-ds"):
+                    sk = set()  # the listed glyphs must NOT be skipped through this seam
                 want_order = [n for n in ref["order"] if n not in sk]
                 if obs["order"] != want_order:
                     bad("glyph-order", expected=want_order, observed=obs["order"])
